@@ -2,7 +2,7 @@
     Domain of every op: from >= 0, 0 <= w <= 32 (w = to-from resp. the height),
     from + w + 7 < 2^31, every byte in [0,256). *)
 From Coq Require Import ZArith List Bool String.
-From Low Require Import Lib.Bits Lib.BitSeq Lib.Bytes Lib.Val Model.FromStr32 Spec.FromStr32Spec.
+From Low Require Import Lib.Bits Lib.BitSeq Lib.Bytes Lib.Val Model.BmtreePath Model.BmtreePathStr Model.FromStr32 Spec.FromStr32Spec Spec.PathsOfSortedSpec.
 Import ListNotations.
 Open Scope string_scope.
 Open Scope Z_scope.
@@ -68,5 +68,83 @@ Definition ops_C11 : list opdef := [
        | [keys; from; h; dd] => match as_zss keys, as_z from, as_z h, as_bool dd with
            | Some keys, Some from, Some h, Some dd => vzs (spec_PathsOf keys from h dd)
            | _, _, _, _ => VBad end
-       | _ => VBad end) |}
+       | _ => VBad end) |};
+  (* two calls; both results are rendered after the second call (a result must not
+     alias a buffer that a later call reuses) *)
+  {| op_name := "bmtree.PathsOf/held";
+     op_run := fun a => match a with
+       | [keys1; keys2; from; h; dd] =>
+           match as_zss keys1, as_zss keys2, as_z from, as_z h, as_bool dd with
+           | Some keys1, Some keys2, Some from, Some h, Some dd =>
+               if c11_dom from h && forallb bytes_okb keys1 && forallb bytes_okb keys2 then
+                 match PathsOf keys1 from h dd, PathsOf keys2 from h dd with
+                 | Some p1, Some p2 => VL [vzs p1; vzs p2]
+                 | _, _ => VPanic end
+               else VBad
+           | _, _, _, _, _ => VBad end
+       | _ => VBad end;
+     op_spec := fun_spec (fun a => match a with
+       | [keys1; keys2; from; h; dd] =>
+           match as_zss keys1, as_zss keys2, as_z from, as_z h, as_bool dd with
+           | Some keys1, Some keys2, Some from, Some h, Some dd =>
+               VL [vzs (spec_PathsOf keys1 from h dd); vzs (spec_PathsOf keys2 from h dd)]
+           | _, _, _, _, _ => VBad end
+       | _ => VBad end) |};
+  (* [PathLen, PathHeight, PathBits, PathMask] of PathOf(s, from, h) *)
+  {| op_name := "bmtree.PathOf/fields";
+     op_run := fun a => match a with
+       | [s; from; h] => match as_zs s, as_z from, as_z h with
+           | Some s, Some from, Some h =>
+               if c11_dom from h && bytes_okb s then
+                 match PathOf s from h with
+                 | Some p => vzs [PathLen p; PathHeight p; PathBits p; PathMask p]
+                 | None => VPanic end
+               else VBad
+           | _, _, _ => VBad end
+       | _ => VBad end;
+     op_spec := fun_spec (fun a => match a with
+       | [s; from; h] => match as_zs s, as_z from, as_z h with
+           | Some s, Some from, Some h => vzs (spec_PathOf_fields s from h)
+           | _, _, _ => VBad end
+       | _ => VBad end) |};
+  (* PathsOf(keys, from, h, true) on keys sorted in string order that share their first
+     [from] bits: judged by the relational checker (strictly increasing, same set) *)
+  {| op_name := "bmtree.PathsOf/sorted";
+     op_run := fun a => match a with
+       | [keys; from; h] => match as_zss keys, as_z from, as_z h with
+           | Some keys, Some from, Some h =>
+               if c11_dom from h && forallb bytes_okb keys && keys_sortedb keys && same_prefixb from keys then
+                 match PathsOf keys from h true with Some ps => vzs ps | None => VPanic end
+               else VBad
+           | _, _, _ => VBad end
+       | _ => VBad end;
+     op_spec := fun a obs => match a with
+       | [keys; from; h] => match as_zss keys, as_z from, as_z h, as_zs obs with
+           | Some keys, Some from, Some h, Some ps => sorted_paths_ok keys from h ps
+           | _, _, _, _ => false end
+       | _ => false end |};
+  (* FromStr32 over [from,from+w1), [from+w1,from+w1+w2) and [from,from+w1+w2): the three
+     results, judged by the functional spec and by the composition relation *)
+  {| op_name := "bitmap.FromStr32/split";
+     op_run := fun a => match a with
+       | [s; from; w1; w2] => match as_zs s, as_z from, as_z w1, as_z w2 with
+           | Some s, Some from, Some w1, Some w2 =>
+               if c11_dom from (w1 + w2) && (0 <=? w1) && (0 <=? w2) && bytes_okb s then
+                 match FromStr32 s from (from + w1), FromStr32 s (from + w1) (from + w1 + w2),
+                       FromStr32 s from (from + w1 + w2) with
+                 | Some (k1, v1), Some (k2, v2), Some (k, v) => VL [vzs [k1; v1]; vzs [k2; v2]; vzs [k; v]]
+                 | _, _, _ => VPanic end
+               else VBad
+           | _, _, _, _ => VBad end
+       | _ => VBad end;
+     op_spec := fun a obs => match a with
+       | [s; from; w1; w2] => match as_zs s, as_z from, as_z w1, as_z w2, as_zss obs with
+           | Some s, Some from, Some w1, Some w2, Some [[k1; v1]; [k2; v2]; [k; v]] =>
+               let r1 := spec_FromStr32 s from w1 in
+               let r2 := spec_FromStr32 s (from + w1) w2 in
+               let r := spec_FromStr32 s from (w1 + w2) in
+               (k1 =? fst r1) && (v1 =? snd r1) && (k2 =? fst r2) && (v2 =? snd r2) &&
+               (k =? fst r) && (v =? snd r) && split_ok w1 w2 (k1, v1) (k2, v2) (k, v)
+           | _, _, _, _, _ => false end
+       | _ => false end |}
 ].
